@@ -136,6 +136,7 @@ class Adversary(Scheduling):
            'resched' also re-proposes tasks that are already SCHEDULED/RUNNING
            'unready' also proposes tasks whose predecessors have not finished
            'static'  task j of the plan on machine j % n, whatever the machine is doing
+           'reserve' reserves machines under the workflow's own name, proposes them, never releases them itself
     """
 
     def __init__(self, mode="random", seed=0):
@@ -160,6 +161,16 @@ class Adversary(Scheduling):
                 len(cluster.get_available_resources()) >= 2:
             cluster.provision_batch_resources(1, "__foreign__")
             self.foreign_done = True
+        if self.mode == "reserve" and len(workflow_plan.tasks) > 0 and \
+                not cluster.is_observation_provisioned(workflow_plan.id) and \
+                len(cluster.get_available_resources()) >= 1 and self.rng.random() < 0.8:
+            # reserves machines for the workflow under its own name and leaves the clean-up to the scheduler
+            # (Cluster.provision_batch_resources: "released by the scheduler when the observation is finished")
+            cluster._adv_call = True
+            try:
+                cluster.provision_batch_resources(self.rng.randint(1, 2), workflow_plan.id)
+            finally:
+                cluster._adv_call = False
         dupm = self.rng.choice(machines)
         for task in workflow_plan.tasks:
             if task in allocations:
@@ -185,6 +196,9 @@ class Adversary(Scheduling):
             elif self.mode == "foreign" and cluster.get_idle_resources("__foreign__") \
                     and self.rng.random() < 0.5:
                 m = cluster.get_idle_resources("__foreign__")[0]
+            elif self.mode == "reserve" and cluster.is_observation_provisioned(workflow_plan.id) \
+                    and cluster.get_idle_resources(workflow_plan.id) and self.rng.random() < 0.8:
+                m = self.rng.choice(cluster.get_idle_resources(workflow_plan.id))
             else:
                 m = self.rng.choice(machines)
             allocations[task] = m
